@@ -267,6 +267,8 @@ def created_while(tr, wf_states):
     for desc, before, t in creations(tr):
         if before is None:
             continue
+        if desc[0] == 'op' and desc[1] in ('resume', 'rerun', 'skip'):
+            continue      # the operation that ends the paused / finished period itself
         st = {w['ord']: w['state'] for w in before['wfs']}.get(t['wf'])
         if st in wf_states:
             bad.append({'task': t['name'], 'wf': t['wf'], 'wf_state_before': st, 'event': desc})
